@@ -11,6 +11,7 @@
 (*   method      solve.rs  parse_method + options.rs  Method::from(&str)   *)
 (*   tol, step   solve.rs  parse_options                                   *)
 (*   evattr      solve.rs  parse_events  (terminal / direction attributes) *)
+(*   evlist      solve.rs  parse_events  loop over SEVERAL event functions *)
 (*   jac         solve.rs / ivp_wrapper.rs  constant | callable | FD       *)
 (*   jacread     ivp_wrapper.rs parse_matrix: strided element reads         *)
 (*   spform      sparsity.rs from_python: tocsc() first, else own indices   *)
@@ -73,6 +74,13 @@ TermForms == {"absent", "false", "true", "int1", "int2"}
 DirForms  == {"absent", "m1", "z", "p1", "m1f", "zf", "p1f", "phalf", "mhalf", "p2"}
 DirHalves(d) == CASE d = "absent" -> 0 [] d = "m1" -> -2 [] d = "z" -> 0 [] d = "p1" -> 2 [] d = "m1f" -> -2
                   [] d = "zf" -> 0 [] d = "p1f" -> 2 [] d = "phalf" -> 1 [] d = "mhalf" -> -1 [] d = "p2" -> 4
+\* the event-LIST machine (parse_events over a list / tuple of 2..MaxEvents event functions): every function carries its own
+\* `terminal` / `direction` attributes or lacks them; forms per function: terminal in {absent, False, True, 1}, direction in
+\* {absent, -1, 0, 1, 2}.  (`terminal = 1` and `direction = 2` are outside the docstring: Level B only, as in the evattr table.)
+LTermForms == {"absent", "false", "true", "int1"}
+LDirForms  == {"absent", "m1", "z", "p1", "p2"}
+EvAttrs    == [terminal : LTermForms, direction : LDirForms]
+MaxEvents  == 3
 \* delivery forms of a Jacobian matrix (constant `jac`, or the value returned by a callable `jac`):
 \* C-ordered / Fortran-ordered float64, transposed view of a C array, strided view, integer dtypes
 JacMatrixForms == {"ndarray", "fortran", "tview", "strided", "intarray", "intfortran", "int32"}
@@ -160,6 +168,12 @@ DocDir(d)  == d \in {"absent", "m1", "z", "p1", "m1f", "zf", "p1f"}   \* docstri
 EvAttrContract(t, d, o) ==
   /\ DocTerm(t) => (o.rterm = (IF t = "true" THEN 1 ELSE 0))
   /\ DocDir(d)  => (o.rdir = Sign(DirHalves(d)))
+
+\* several event functions: the configuration of event i is determined by the attributes of event function i ALONE (an absent
+\* attribute means the default -- non-terminal, both directions -- whatever the other functions of the list carry, in any order)
+EvListContract(evs, o) ==
+  /\ Len(o.cfgs) = Len(evs)
+  /\ \A i \in 1..Len(evs) : EvAttrContract(evs[i].terminal, evs[i].direction, o.cfgs[i])
 
 \* a constant or callable Jacobian is honoured; njev of a constant Jacobian is not constrained (SciPy reports 0)
 JacContract(form, o) ==
@@ -311,10 +325,39 @@ ParseStep ==                  \* get_item + extract::<Float>(); None fails the e
   /\ pc' = "done" /\ UNCHANGED <<mach, inp, st>>
 
 TruncHalves(h) == IF h >= 0 THEN h \div 2 ELSE -((-h) \div 2)     \* `d as i32` truncates toward zero
+NewConfig == [rterm |-> 0, rdir |-> 0]                             \* EventConfig::new(): non-terminal, Direction::All
+\* `if let Ok(term) = ef.getattr("terminal") { if let Ok(is_term) = term.extract::<bool>() { if is_term { config.terminal() } } }`:
+\* the config is written only for a bool True (extract::<bool>() is strict: ints are not bools); otherwise it is left as it is
+ApplyTerminal(cfg, t) == IF t = "true" THEN [cfg EXCEPT !.rterm = 1] ELSE cfg
+\* `if let Ok(dir) = ef.getattr("direction") { if let Ok(d) = dir.extract::<f64>() { config.direction(Direction::from(d as i32)) } }`:
+\* an absent attribute leaves the config as it is
+ApplyDirection(cfg, d) == IF d = "absent" THEN cfg ELSE [cfg EXCEPT !.rdir = Sign(TruncHalves(DirHalves(d)))]
 ParseEvAttr ==
   /\ mach = "evattr" /\ pc = "alloc"
-  /\ out' = [rterm |-> IF inp.terminal = "true" THEN 1 ELSE 0,      \* extract::<bool>() is strict: ints are not bools
-             rdir |-> Sign(TruncHalves(DirHalves(inp.direction)))]   \* Direction::from(d as i32)
+  /\ out' = ApplyDirection(ApplyTerminal(NewConfig, inp.terminal), inp.direction)
+  /\ pc' = "done" /\ UNCHANGED <<mach, inp, st>>
+
+\* ---- parse_events over a list of event functions: `for ef in &event_funs { let mut config = EventConfig::new(); ..; push(config) }` ----
+ELPick ==      \* choose the attributes of the remaining event functions (the first one was chosen in Init)
+  /\ mach = "evlist" /\ pc = "pick"
+  /\ \E rest \in [2..inp.len -> EvAttrs] : inp' = [evs |-> [i \in 1..inp.len |-> IF i = 1 THEN inp.first ELSE rest[i]]]
+  /\ pc' = "alloc" /\ UNCHANGED <<mach, st, out>>
+
+ELStart ==     \* event_configs = Vec::new()
+  /\ mach = "evlist" /\ pc = "alloc"
+  /\ st' = [i |-> 1, cfgs |-> <<>>]
+  /\ pc' = "loop" /\ UNCHANGED <<mach, inp, out>>
+
+ELIter ==      \* one loop iteration: a FRESH config per event function, the function's own attributes applied, pushed
+  /\ mach = "evlist" /\ pc = "loop" /\ st.i <= Len(inp.evs)
+  /\ LET ef == inp.evs[st.i]
+         config == ApplyDirection(ApplyTerminal(NewConfig, ef.terminal), ef.direction)
+     IN st' = [st EXCEPT !.cfgs = Append(st.cfgs, config), !.i = st.i + 1]
+  /\ UNCHANGED <<mach, pc, inp, out>>
+
+ELDone ==
+  /\ mach = "evlist" /\ pc = "loop" /\ st.i = Len(inp.evs) + 1
+  /\ out' = [cfgs |-> st.cfgs]
   /\ pc' = "done" /\ UNCHANGED <<mach, inp, st>>
 
 ParseJac ==
@@ -424,11 +467,12 @@ Init ==
      \/ mach = "tol" /\ inp \in TolForms
      \/ mach = "step" /\ inp \in StepForms
      \/ mach = "evattr" /\ inp \in [terminal : TermForms, direction : DirForms]
+     \/ mach = "evlist" /\ inp \in [len : 2..MaxEvents, first : EvAttrs]
      \/ mach = "jac" /\ inp \in JacForms
      \/ mach = "spform" /\ inp \in SpForms
      \/ mach = "jacread" /\ inp \in [n : 1..3, layout : JacLayouts]
      \/ mach = "group" /\ inp \in BlockInputs
-  /\ pc = (IF mach = "group" THEN "pick" ELSE "alloc") /\ st = Nothing /\ out = Nothing
+  /\ pc = (IF mach \in {"group", "evlist"} THEN "pick" ELSE "alloc") /\ st = Nothing /\ out = Nothing
 
 Next ==
   \/ TAlloc \/ TWrite \/ TEmptyRow \/ TReshape
@@ -436,6 +480,7 @@ Next ==
   \/ SScalar \/ SStart \/ SEval \/ SEvalDone \/ STranspose \/ SReshape
   \/ JBuffer \/ JRead \/ JDone \/ ParseSparsity
   \/ StatusMap \/ ParseMethod \/ ParseTol \/ ParseStep \/ ParseEvAttr \/ ParseJac
+  \/ ELPick \/ ELStart \/ ELIter \/ ELDone
   \/ GPick \/ GStart \/ GAssign \/ GNew \/ GFdStart \/ GFdGroup \/ GDone
 
 Spec == Init /\ [][Next]_vars
@@ -453,6 +498,7 @@ Contract ==
       [] mach = "tol" -> TolContract(inp, out)
       [] mach = "step" -> StepContract(inp, out)
       [] mach = "evattr" -> EvAttrContract(inp.terminal, inp.direction, out)
+      [] mach = "evlist" -> EvListContract(inp.evs, out)
       [] mach = "jac" -> JacContract(inp, out)
       [] mach = "jacread" -> JacReadContract(inp.n, out)
       [] mach = "spform" -> SparsityFormContract(inp, out)
@@ -479,6 +525,12 @@ Scenario ==
     [] mach = "step" -> [kind |-> "step", form |-> inp, expect |-> out]
     [] mach = "evattr" -> [kind |-> "evattr", terminal |-> inp.terminal, direction |-> inp.direction,
                            rterm |-> out.rterm, rdir |-> out.rdir, doc |-> (DocTerm(inp.terminal) /\ DocDir(inp.direction))]
+    [] mach = "evlist" -> [kind |-> "evlist", len |-> Len(inp.evs),
+                           evs |-> [i \in 1..Len(inp.evs) |->
+                                     [terminal |-> inp.evs[i].terminal, direction |-> inp.evs[i].direction,
+                                      rterm |-> out.cfgs[i].rterm, rdir |-> out.cfgs[i].rdir,
+                                      doc |-> (DocTerm(inp.evs[i].terminal) /\ DocDir(inp.evs[i].direction))]],
+                           doc |-> \A i \in 1..Len(inp.evs) : DocTerm(inp.evs[i].terminal) /\ DocDir(inp.evs[i].direction)]
     [] mach = "jac" -> [kind |-> "jac", form |-> inp, source |-> out.source, njev |-> out.njev]
     [] mach = "spform" -> [kind |-> "spform", form |-> inp.form, via |-> out.via, own |-> inp.own]
     [] mach = "jacread" -> [kind |-> "jaclayout", n |-> inp.n, form |-> inp.layout]
@@ -487,6 +539,6 @@ Scenario ==
 Emit == pc = "done" => PrintT(<<"REPLAY", ToJson(Scenario)>>)
 
 TypeOK ==
-  /\ mach \in {"transpose", "evflat", "sol", "status", "method", "tol", "step", "evattr", "jac", "jacread", "spform", "group"}
+  /\ mach \in {"transpose", "evflat", "sol", "status", "method", "tol", "step", "evattr", "evlist", "jac", "jacread", "spform", "group"}
   /\ pc \in {"pick", "alloc", "loop", "eval", "tr", "cols", "fd", "done"}
 =============================================================================
